@@ -221,6 +221,23 @@ func c01Exec(c *core.Ctx, cs c01Case) {
 			c.Count("alias-substitutions", int(subs))
 		}
 	}
+	if cs.AllKind {
+		// the single-command entry point, and sources of a type the package does not know
+		cmd, _, err := parser.ParseCommand("c01", string(cs.Src))
+		c.Eval(1)
+		if cmd == nil && err == nil && strings.TrimSpace(string(cs.Src)) != "" && !strings.HasPrefix(strings.TrimSpace(string(cs.Src)), "#") && !strings.HasPrefix(strings.TrimLeft(string(cs.Src), " \t"), "\n") && !strings.HasPrefix(strings.TrimLeft(string(cs.Src), " \t"), "\\\n") {
+			c.Count("note/ParseCommand-nil-nil-on-non-blank-source", 1)
+		}
+		for _, bad := range []any{nil, 42, struct{}{}, []rune(string(cs.Src))} {
+			cmds, _, err := parser.ParseCommands(env, "c01", bad)
+			c.Eval(1)
+			if err == nil {
+				c.Violation("invalid-source-accepted", fmt.Sprintf("%T", bad), "a non-nil error", fmt.Sprintf("nil error, %d commands", len(cmds)), "")
+			}
+		}
+		c.Count("source-kind/unsupported-type", 4)
+		c01Quiesce(c)
+	}
 	if c.Index()%20011 == 0 {
 		c.Sample(map[string]any{"source": string(cs.Src), "aliases": cs.Aliases, "kind": cs.Kind})
 	}
